@@ -143,7 +143,7 @@ impl<'a> G<'a> {
         match self.rng.below(16) {
             0 | 1 | 2 | 3 => { let (a, b) = (self.int_arg(), self.int_arg()); writeln!(out, "{}ins_{}({}, {});", ind, self.op_i(), a, b).unwrap(); }
             4 | 5 => { let (a, b) = (self.int_arg(), self.float_arg()); writeln!(out, "{}ins_{}({}, {});", ind, self.op_f(), a, b).unwrap(); }
-            6 if self.strings => { let s = self.string_lit(); let op = if self.rng.chance(1, 2) { 16 } else { 17 }; writeln!(out, "{}ins_{}({});", ind, op, s).unwrap(); }
+            6 if self.strings => { let s = self.string_lit(); let op = if self.game == Game::Th08 || self.rng.chance(1, 2) { 16 } else { 17 }; writeln!(out, "{}ins_{}({});", ind, op, s).unwrap(); }
             7 => { writeln!(out, "{}+{}:", "    ".repeat(depth), self.rng.range(1, 30)).unwrap(); }
             8 | 9 if self.regs && self.nvar < 3 => {
                 self.nvar += 1;
@@ -193,6 +193,15 @@ impl<'a> G<'a> {
         for v in self.floats.clone() { writeln!(out, "    ins_{}({}, {});", self.op_f(), self.rng.range(0, 9), v).unwrap(); }
         let n = 2 + self.rng.below(9) as usize;
         for _ in 0..n { self.stmt(0, &mut out); }
+        // text whose size depends on the text before it: a furigana line followed by another text line (TH12+ MSG)
+        if self.strings && self.rng.chance(2, 3) {
+            let (a, b) = (self.string_lit(), self.string_lit());
+            let a = if a.starts_with("\"|") { a } else { format!("\"|{},{}", self.rng.range(0, 20), &a[1..]) };
+            writeln!(out, "    ins_16({});", a).unwrap();
+            if self.rng.chance(1, 3) { writeln!(out, "+{}:", self.rng.range(1, 9)).unwrap(); }
+            writeln!(out, "    ins_16({});", b).unwrap();
+            if self.rng.chance(1, 2) { writeln!(out, "    ins_{}(1, 2);", self.op_i()).unwrap(); }
+        }
         // define the labels that jumps asked for, at the very end (a label at the closing brace) or before a last instruction
         for l in std::mem::take(&mut self.labels_wanted) {
             writeln!(out, "{}:", l).unwrap();
